@@ -76,7 +76,7 @@ struct ArchiveCase {
 
 fn make_archives(dir: &std::path::Path, seed: u64, thorough: bool) -> Vec<ArchiveCase> {
     let mut out = Vec::new();
-    let counts: Vec<usize> = if thorough { vec![3, 51, 101] } else { vec![3, 51] };
+    let counts: Vec<usize> = if thorough { vec![3, 57, 101, 121] } else { vec![3, 57] };
     for &n in &counts {
         let mut rng = Rng::new(seed + n as u64);
         let base = rng.bases(170);
@@ -124,6 +124,7 @@ fn make_archives(dir: &std::path::Path, seed: u64, thorough: bool) -> Vec<Archiv
             Q::AllSegments, Q::GroupStats,
             Q::RefSeg(9999),
             Q::ByPrefix("s00".into()), Q::WithPrefix("s0".into()),
+            Q::GetSample(samples[n / 2].0.clone()), Q::GetContig(samples[(n * 2) / 3].0.clone(), "chrA".into()), Q::Range(samples[n / 2].0.clone(), "chrA".into(), 20, 90),
         ];
         if let Some(g) = raw_ref_group { ops.push(Q::RefSeg(g)); }
         if let Some(g) = zstd_ref_group { ops.push(Q::RefSeg(g)); }
